@@ -29,12 +29,23 @@ def go_env():
 
 def sh(cmd, cwd=None, env=None, timeout=1200, inp=None, check=False):
     """Run a command, return (rc, stdout, stderr)."""
+    # own session: on a timeout the whole process group goes (go vet starts one tool process per package)
+    p = subprocess.Popen(cmd, cwd=cwd, env=env, stdin=subprocess.PIPE if inp is not None else subprocess.DEVNULL, stdout=subprocess.PIPE, stderr=subprocess.PIPE,
+                         text=True, shell=isinstance(cmd, str), start_new_session=True)
     try:
-        p = subprocess.run(cmd, cwd=cwd, env=env, input=inp, capture_output=True, text=True, timeout=timeout,
-                           shell=isinstance(cmd, str))
-        rc, out, err = p.returncode, p.stdout, p.stderr
-    except subprocess.TimeoutExpired as e:
-        rc, out, err = 124, (e.stdout or b"").decode("utf8", "replace") if isinstance(e.stdout, bytes) else (e.stdout or ""), "TIMEOUT"
+        out, err = p.communicate(inp, timeout=timeout)
+        rc = p.returncode
+    except subprocess.TimeoutExpired:
+        import signal
+        try:
+            os.killpg(p.pid, signal.SIGKILL)
+        except OSError:
+            pass
+        try:
+            out, _ = p.communicate(timeout=20)
+        except Exception:
+            out = ""
+        rc, out, err = 124, out or "", "TIMEOUT"
     if check and rc != 0:
         raise RuntimeError("command failed (%s): %s\n%s\n%s" % (rc, cmd, out[-2000:], err[-4000:]))
     return rc, out, err
